@@ -1271,6 +1271,9 @@ class Engine:
                 conj.append(z3.BoolVal({ast.Eq: left.s == right.s, ast.NotEq: left.s != right.s}[type(op)]))
             elif isinstance(op, (ast.Eq, ast.NotEq)) and ((isinstance(left, VTuple) and isinstance(right, VStr)) or (isinstance(left, VStr) and isinstance(right, VTuple))):
                 conj.append(z3.BoolVal(isinstance(op, ast.NotEq)))       # a list / tuple never equals a string
+            elif isinstance(left, VBound) and isinstance(right, VBound) and isinstance(op, (ast.Eq, ast.NotEq)) and isinstance(left.recv, VRef) and isinstance(right.recv, VRef):
+                same_ = z3.And(left.recv.e == right.recv.e, z3.BoolVal(left.name == right.name))       # bound methods are equal iff same object and same function
+                conj.append(same_ if isinstance(op, ast.Eq) else z3.Not(same_))
             elif isinstance(left, VName) and isinstance(right, VName) and isinstance(op, (ast.Eq, ast.NotEq)):
                 conj.append(left.e == right.e if isinstance(op, ast.Eq) else left.e != right.e)
             elif isinstance(left, VTuple) and isinstance(right, VTuple) and isinstance(op, (ast.Eq, ast.NotEq)) and all(isinstance(q_, (VNum, VNone)) for q_ in left.items + right.items) and any(isinstance(q_, VNone) for q_ in left.items + right.items):
@@ -1404,6 +1407,10 @@ class Engine:
     def ev_Call(self, n, st):
         if isinstance(n.func, ast.Attribute) and n.func.attr == "format" and isinstance(n.func.value, (ast.Constant, ast.JoinedStr)):
             return VStr("<formatted>")       # message text: arguments are not evaluated (dropped, see DESIGN 2.1)
+        if isinstance(n.func, ast.Name) and n.func.id == "type" and n.func.id not in st.locals and len(n.args) == 1:
+            v_ = self.ev(n.args[0], st)
+            if isinstance(v_, VRef) and v_.cls is not None:
+                return VLib("class:" + v_.cls)          # type(obj): the class the object is verified as (closed world: no subclass)
         if isinstance(n.func, ast.Name) and n.func.id in ("repr", "str", "type") and n.func.id not in st.locals:
             return VStr("<text>")
         f = self.ev(n.func, st)
